@@ -219,7 +219,8 @@ def _dispatch_site(idx):
         if isinstance(st, ast.Assign) and len(st.targets) == 1 and isinstance(st.targets[0], ast.Name):
             tname = st.targets[0].id
         loops = [w for w in walk_own(comp.node) if isinstance(w, ast.While) and any(
-            isinstance(s, ast.Subscript) and (cm.is_name(s.value, tname) or s.value is table) for s in ast.walk(w))]
+            (isinstance(s, ast.Subscript) and (cm.is_name(s.value, tname) or s.value is table)) or
+            (tname is not None and cm.is_name(s, tname)) for s in ast.walk(w))]     # subscripted here, or handed to the helper that does
         if len(loops) != 1:
             raise AnalysisError('Munkres.compute: cannot find the dispatch loop over the step table')
         return cfg.nodes_of(loops[0])
@@ -636,6 +637,13 @@ def init_body(r, idx):
                  and n.attr not in methods and id(n) not in in_init]
     for n in own_reads:
         needed.setdefault(n.attr, 'Munkres.compute (result loop)')
+    try:
+        ex_ = cm.extraction_facts(idx)
+    except AnalysisError:
+        ex_ = None
+    if ex_ is not None and ex_.fi is not comp:
+        for f_, node_ in _fields_read(ex_.fi, methods).items():       # result extraction moved into a helper / generator
+            needed.setdefault(f_, 'Munkres.%s (result extraction)' % ex_.fi.name)
     if len(needed) < 8:
         raise AnalysisError('only %d per-solve fields found; the step methods are no longer recognised' % len(needed))
     
@@ -757,7 +765,9 @@ def _cell_results(r, idx, ex):
         else:
             r.verdict(construct, nf.classify('range(%s.%s)' % (selfn, field), it), where, expected='range(self.%s)' % field)
         # the bound field itself
-        vals = [s for s in walk_own(comp.node) if isinstance(s, ast.Assign) and any(cm.is_self_attr(t, selfn, field) for t in s.targets)]
+        owner_ = getattr(ex, 'field_owner', comp)
+        osn_ = owner_.params[0]
+        vals = [s for s in walk_own(owner_.node) if isinstance(s, ast.Assign) and any(cm.is_self_attr(t, osn_, field) for t in s.targets)]
         if len(vals) == 1:
             pats = {'original_length': 'len(cost_matrix)', 'original_width': 'len(cost_matrix[0])'}
             alt = {'original_length': 'len(cost_matrix[0])', 'original_width': 'len(cost_matrix)'}
@@ -897,7 +907,8 @@ def _row_star_results(r, idx, ex):
 
 def results_body(r, idx):
     ex = cm.extraction_facts(idx)
-    comp, selfn = ex.fi, ex.selfn
+    comp = idx.func(cm.MUNKRES + '.compute')
+    selfn = comp.params[0]
     if getattr(ex, 'layout', 'cells') == 'row-star':
         _row_star_results(r, idx, ex)
     else:
@@ -1062,7 +1073,37 @@ _RES_OLD = ("        results = []\n        for i in range(self.original_length):
 _RES_ROWSTAR = ("        stars = ((i, self.__find_star_in_row(i)) for i in range(self.original_length))\n"
                 "        return [(i, j) for (i, j) in stars if 0 <= j < self.%s]\n")
 
+# wave-6 refactoring form: the starred cells are generated by a helper method and collected with list()
+_RES_GEN = ("        return list(self.__starred_cells())\n\n    def __starred_cells(self):\n        for i in range(self.%s):\n"
+            "            for j in range(self.%s):\n                if self.marked[i][j] == %s:\n                    yield (%s)\n")
+
+# wave-6 refactoring forms of step 5: the series is carried in two locals / is produced by a generator method
+_S5_CARRIED = ("        path = self.path\n        row = self.Z0_r\n        col = self.Z0_c\n        count = 0\n        path[count][0] = row\n"
+               "        path[count][1] = col\n        while True:\n            row = self.__find_star_in_col(%s)\n            if row < 0:\n"
+               "                break\n            count += 1\n            path[count][0] = row\n            path[count][1] = col\n"
+               "            col = self.__find_prime_in_row(%s)\n            count += 1\n            path[count][0] = row\n            path[count][1] = col\n%s")
+_S5_SERIES = ("        path = self.path\n        count = 0\n        for count, (row, col) in enumerate(self.__alternating_series()):\n"
+              "            path[count][0] = row\n            path[count][1] = col\n")
+_S5_SERIES_GEN = ("    def __step6(self):\n",
+                  "    def __alternating_series(self):\n        row = self.Z0_r\n        col = self.Z0_c\n        yield (row, col)\n        while True:\n"
+                  "            row = self.__find_star_in_col(%s)\n            if not row >= 0:\n                return\n            yield (row, %s)\n"
+                  "            col = self.__find_prime_in_row(%s)\n            yield (row, col)\n\n    def __step6(self):\n")
+
+
+def _series(star_arg='col', star_col='col', prime_arg='row'):
+    return [(_S5_OLD, _S5_SERIES), (_S5_SERIES_GEN[0], _S5_SERIES_GEN[1] % (star_arg, star_col, prime_arg))]
+
+
 MUTANTS = [
+    Mutant('step5-carried-star-searched-in-row-number', MK, _S5_OLD, _S5_CARRIED % ('row', 'row', ''), 'D4'),
+    Mutant('step5-carried-prime-searched-in-column-number', MK, _S5_OLD, _S5_CARRIED % ('col', 'col', ''), 'D4'),
+    Mutant('step5-generated-star-column-from-Z0', MK, _series(star_col='self.Z0_c'), None, 'D4'),
+    Mutant('step5-generated-prime-searched-in-column-number', MK, _series(prime_arg='col'), None, 'D4'),
+    Mutant('step5-generated-star-searched-in-row-number', MK, _series(star_arg='row'), None, 'D4'),
+    Mutant('generated-cells-over-padded-rows', MK, _RES_OLD, _RES_GEN % ('n', 'original_width', '1', 'i, j'), 'D3'),
+    Mutant('generated-cells-over-padded-columns', MK, _RES_OLD, _RES_GEN % ('original_length', 'n', '1', 'i, j'), 'D3'),
+    Mutant('generated-cells-yield-primes', MK, _RES_OLD, _RES_GEN % ('original_length', 'original_width', '2', 'i, j'), 'D3'),
+    Mutant('generated-cells-transposed', MK, _RES_OLD, _RES_GEN % ('original_length', 'original_width', '1', 'j, i'), 'D3'),
     Mutant('row-aliased', MK, "            new_row = row[:]\n", "            new_row = row\n", 'D1'),
     Mutant('pad-bypassed', MK, "        self.C = self.pad_matrix(cost_matrix)\n", "        self.C = cost_matrix\n", 'D1'),
     Mutant('pad-shallow-outer', MK, "        new_matrix = []\n        for row in matrix:\n            row_len = len(row)\n            new_row = row[:]\n            if total_rows > row_len:\n                # Row too short. Pad it.\n                new_row += [pad_value] * (total_rows - row_len)\n            new_matrix += [new_row]\n",
@@ -1169,6 +1210,9 @@ MUTANTS = [
 ]
 
 BENIGN = [
+    Benign('step5-series-carried-in-locals', MK, _S5_OLD, _S5_CARRIED % ('col', 'row', '')),
+    Benign('step5-series-from-generator-method', MK, _series(), None),
+    Benign('starred-cells-from-generator-method', MK, _RES_OLD, _RES_GEN % ('original_length', 'original_width', '1', 'i, j')),
     Benign('row-copied-with-list', MK, "            new_row = row[:]\n", "            new_row = list(row)\n"),
     Benign('pad-explicit-concat', MK, "                new_row += [pad_value] * (total_rows - row_len)\n",
            "                new_row = new_row + [pad_value] * (total_rows - row_len)\n"),
